@@ -303,6 +303,11 @@ func exec(planJSON []byte, run *core.Run) {
 		run.Violate(comp+".SystemSecretKey.UnmarshalBinary", "rejects-own-encoding", "%v", err)
 		return
 	}
+	core.Recycle(mskBuf)
+	if now, err := msk.MarshalBinary(); err != nil || !bytes.Equal(now, auth.mskBytes) {
+		run.Violate(comp+".SystemSecretKey.UnmarshalBinary", "retains-the-callers-buffer", "the master secret key marshals differently once the buffer it was loaded from is reused (err=%v)", err)
+		return
+	}
 	// policy: printed, parsed
 	src := p.Policy.printTop(p.Spaces)
 	var pol tkn20.Policy
@@ -555,6 +560,90 @@ func exec(planJSON []byte, run *core.Run) {
 	}
 }
 
+// tokens splits a policy text into identifiers, ':' and parentheses.
+func tokens(src string) []string {
+	var out []string
+	cur := ""
+	flush := func() {
+		if cur != "" {
+			out = append(out, cur)
+			cur = ""
+		}
+	}
+	for _, c := range src {
+		switch {
+		case c == ' ':
+			flush()
+		case c == '(' || c == ')' || c == ':':
+			flush()
+			out = append(out, string(c))
+		default:
+			cur += string(c)
+		}
+	}
+	flush()
+	return out
+}
+
+func leafCount(toks []string) int {
+	n := 0
+	for _, t := range toks {
+		if t == ":" {
+			n++
+		}
+	}
+	return n
+}
+
+func syntaxFaults(src string, seed uint64, run *core.Run, comp string) bool {
+	toks := tokens(src)
+	r := core.NewPRNG(seed ^ 0x51a7)
+	for k := 0; k < 6; k++ {
+		mut := append([]string{}, toks...)
+		i := r.Intn(len(mut))
+		switch r.Intn(5) {
+		case 0: // a token is dropped
+			mut = append(mut[:i], mut[i+1:]...)
+		case 1: // a token is doubled
+			mut = append(mut[:i+1], mut[i:]...)
+		case 2: // a closing parenthesis appears
+			mut = append(mut[:i], append([]string{")"}, mut[i:]...)...)
+		case 3: // an opening parenthesis appears
+			mut = append(mut[:i], append([]string{"("}, mut[i:]...)...)
+		case 4: // the text goes on after its end
+			mut = append(mut, []string{")", "and", "zz", ":", "zz"}[:1+r.Intn(5)]...)
+		}
+		text := ""
+		for j, t := range mut {
+			if j > 0 && t != ":" && mut[j-1] != ":" {
+				text += " "
+			}
+			text += t
+		}
+		var pl tkn20.Policy
+		var err error
+		pan, v, st := core.Try(func() { err = pl.FromString(text) })
+		if pan {
+			run.Violate(comp+".Policy.FromString", core.PanicClass(v), "%q: %s at %s", text, v, st)
+			return false
+		}
+		run.Fault("syntax:token-dropped-doubled-or-parenthesis-inserted")
+		if err != nil {
+			continue
+		}
+		var printed string
+		if pan, v, st := core.Try(func() { printed = pl.String() }); pan {
+			run.Violate(comp+".Policy.String", core.PanicClass(v), "policy accepted from %q: %s at %s", text, v, st)
+			return false
+		}
+		if got, want := leafCount(tokens(printed)), leafCount(mut); got != want {
+			run.Violate(comp+".Policy.FromString", "accepts-text-and-drops-part-of-it", "%q is accepted without error as the policy %q: %d of the %d leaves written in the text are gone", text, printed, want-got, want)
+			return false
+		}
+	}
+	return true
+}
+
 // execPolicyOnly: one policy object, observed repeatedly. Observers must not change what
 // later observers see: the printed form is the same before and after Satisfaction, parses
 // back to a policy with the same semantics, and Satisfaction keeps agreeing with the
@@ -568,6 +657,18 @@ func execPolicyOnly(p *Plan, run *core.Run, comp string) {
 	}
 	run.T("policy-only", abstract(p.Policy))
 	run.Fault("history:policy-object-observed-repeatedly")
+	// a twin parsed from the same text that nobody asks anything: the two stay equal
+	var twin tkn20.Policy
+	if err := twin.FromString(src); err != nil || !pol.Equal(&twin) || !twin.Equal(&pol) {
+		run.Violate(comp+".Policy.Equal", "equal-policies-compare-unequal", "%q parsed twice: %v", src, err)
+		return
+	}
+	// syntax faults: one token of the text is dropped, doubled or a parenthesis is put in. What
+	// the parser then accepts must still contain every leaf that is written in the text (a
+	// policy weaker than the text a holder reads is the dangerous outcome).
+	if !syntaxFaults(src, p.Seed, run, comp) {
+		return
+	}
 	r := core.NewPRNG(p.Seed)
 	first := ""
 	checkPrint := func(when string) bool {
@@ -623,6 +724,10 @@ func execPolicyOnly(p *Plan, run *core.Run, comp string) {
 			}
 		}
 		if !checkPrint(fmt.Sprintf("after %d rounds of Satisfaction", round+1)) {
+			return
+		}
+		if !pol.Equal(&twin) || !twin.Equal(&pol) {
+			run.Violate(comp+".Policy.Satisfaction", "query-changes-the-policy-object", "%q: after %d rounds of Satisfaction the policy no longer compares Equal to a policy parsed from the same text", src, round+1)
 			return
 		}
 	}
